@@ -67,10 +67,24 @@ def run_cell(interp, code, fault=None):
     ARM['target'] = (fault['ordinal'], fault['when']) if fault else None
     try:
         res = interp.execute(code)
+    except Exception as e:  # noqa: BLE001
+        # an exception escaped Interpreter.execute (e.g. while formatting a node error): for the session this is a failed
+        # cell like any other, and the property still applies to it
+        res = EscapedFailure(e)
     finally:
         ARM['active'] = False
         ARM['target'] = None
     return res, ARM['count'], ARM['fired']
+
+
+class EscapedFailure:
+    """Stands for the result of a cell whose failure escaped Interpreter.execute as a raw exception."""
+
+    def __init__(self, exc):
+        self.error = exc
+        self.stdout = [f'escaped {type(exc).__name__}']
+        self.stack = None
+        self.instructions = None
 
 
 # ---------------------------------------------------------------------------------
@@ -138,7 +152,9 @@ def render_instr(it, depth=0):
 
 def render_result(res):
     err = None
-    if res.error is not None:
+    if isinstance(res, EscapedFailure):
+        err = f'escaped:{type(res.error).__name__}'
+    elif res.error is not None:
         try:
             err = res.error.format_stdout()
         except Exception:  # noqa: BLE001
